@@ -20,7 +20,7 @@ RULE = ("Hypothesis RuleBasedStateMachine (rules = addfilter, updatefilter, repl
         "surrounding blank or by case) through the same interpreter; oracle: reference ordered-unique-list model compared after every step (names/order, FilterAlreadyExists, "
         "position and enabled flag kept by update/replace, move by one within bounds, unknown names change nothing, enabled flag "
         "== not is_filter_disabled == rendering wrapped in 'if false' with exactly one child, getfilter renders the last supplied "
-        "definition). Non-trivial = history repeats an operation kind on the same name or mixes >= 3 kinds; distinct by history.")
+        "definition); the rendering of the set shows each filter's own current content (white space aside). Non-trivial = history repeats an operation kind on the same name or mixes >= 3 kinds; distinct by history.")
 
 NAMES = ["n1", "n2", "n3"]
 GHOST = "never-added"
